@@ -43,6 +43,8 @@ func c18Variants() []srcVariant {
 		{"A2", true, map[string]string{"app/foo.go": c18Foo, "app/wire.go": c18Wire("func InitSvc() (*Svc, func(), error) {\n\tpanic(wire.Build(NewCfg, NewSvcE))\n}\n")}},
 		{"A3", true, map[string]string{"app/foo.go": c18Foo, "app/wire.go": c18Wire("func InitSvc() *Svc {\n\tpanic(wire.Build(wire.Value(Cfg{N: helper()*0 + 3}.N), wire.Struct(new(Svc), \"M\")))\n}\n\nfunc helper() int { return 42 }\n\nvar keep = helper\n")}},
 		{"R1", false, map[string]string{"app/foo.go": c18Foo, "app/wire.go": c18Wire("func InitSvc() *Svc {\n\tpanic(wire.Build(NewSvc))\n}\n")}},
+		// wire imported through a raw string literal, other providers
+		{"A4", true, map[string]string{"app/foo.go": c18Foo, "app/wire.go": strings.Replace(c18Wire("func InitSvc() *Svc {\n\tpanic(wire.Build(NewCfg, NewM, wire.Struct(new(Svc), \"C\", \"M\")))\n}\n"), "\"github.com/google/wire\"", "`github.com/google/wire`", 1)}},
 		{"R2", false, map[string]string{"app/foo.go": c18Foo, "app/wire.go": c18Wire("func InitSvc() *Svc {\n\tx := NewCfg()\n\t_ = x\n\tpanic(wire.Build(NewCfg, NewSvc))\n}\n")}},
 	}
 }
@@ -58,10 +60,8 @@ func checkC18(c *h.Check) {
 	// A3 uses a call inside wire.Value which wire must refuse; keep it simple: a plain value
 	variants[2].files["app/wire.go"] = c18Wire("func InitSvc() *Svc {\n\tpanic(wire.Build(wire.Value(7), wire.Struct(new(Svc), \"M\")))\n}\n\nfunc helper() int { return 42 }\n\nvar keep = helper\n")
 	if !thorough {
-		variants = []srcVariant{variants[0], variants[1], variants[3]}
-		variants = append(variants, c18Variants()[2:3]...)
-		variants[3].files["app/wire.go"] = c18Wire("func InitSvc() *Svc {\n\tpanic(wire.Build(wire.Value(7), wire.Struct(new(Svc), \"M\")))\n}\n\nfunc helper() int { return 42 }\n\nvar keep = helper\n")
-		variants = append(variants, c18Variants()[4])
+		// quick: A1, A2, R1, A3, A4 (R2 is left to the thorough tier)
+		variants = []srcVariant{variants[0], variants[1], variants[3], variants[2], variants[4]}
 	}
 	ex := &h.FSExplorer{S: c.S, ModPath: "example.com/m"}
 	const out = "app/wire_gen.go"
@@ -79,10 +79,12 @@ func checkC18(c *h.Check) {
 			h.WriteFiles(d, v.files)
 			r := h.RunLimited(d, h.BaseEnv("GOCACHE="+c.S.GoCache), 60e9, h.WireMemKB, c.S.Wire, "gen", "./...")
 			t := h.ReadTree(d)
-			if r.Exit != 0 || t[out] == "" {
+			if r.Exit != 0 {
 				c.Internalf("fresh generation of variant %s failed: exit %d\n%s", v.name, r.Exit, r.Stderr)
 				return
 			}
+			// exit 0 without an output file is taken at face value: "what a fresh checkout gets" is then no file,
+			// and every history must end in the same state (a stale file left behind is reported as not-fresh)
 			fresh[v.name] = t[out]
 			dirs[v.name] = t
 		}
@@ -147,6 +149,8 @@ func checkC18(c *h.Check) {
 				damage("blank-tail", cur+"\n\n"),
 				damage("trailer-comment", cur+"// trailing comment\n"),
 				damage("comment-above-marker", "// FIXME: reviewed by hand\n\n"+cur),
+				// the "Code generated" line is lost, the rest (constraint included) stays
+				damage("first-line-removed", cur[strings.Index(cur, "\n")+1:]),
 			)
 			// a truncated copy, as long as the generated build constraint survives the cut
 			if half := cur[:len(cur)/2]; strings.Contains(half, "//go:build !wireinject\n") {
@@ -304,7 +308,7 @@ func checkC18(c *h.Check) {
 	for _, v := range variants {
 		names = append(names, v.name)
 	}
-	c.Coverage["rule"] = fmt.Sprintf("explicit-state BFS to closure over module-tree states (state = full byte content of the tree, deduplicated by hash). Source variants %v; operations: switch to variant, gen (also from the package directory; thorough: with -output_file_prefix), diff, check, delete output, replace output by hand-edited / non-compiling / garbage / empty / wrong-package files and by white-space-only variants of the current output (CRLF copy, no final newline, blank tail, truncated half, trailing comment) carrying the !wireinject constraint (old and new syntax). Invariants on every transition: successful gen => output == Fresh(variant) from a pristine checkout, only that file changed, second gen changes nothing, diff right after exits 0; gen's and check's verdict equals the fresh-checkout verdict; failed gen, diff and check leave the tree untouched; diff exits 0/1/2 as specified.", names)
+	c.Coverage["rule"] = fmt.Sprintf("explicit-state BFS to closure over module-tree states (state = full byte content of the tree, deduplicated by hash). Source variants %v; operations: switch to variant, gen (also from the package directory; thorough: with -output_file_prefix), diff, check, delete output, replace output by hand-edited / non-compiling / garbage / empty / wrong-package files and by white-space-only variants of the current output (CRLF copy, no final newline, blank tail, truncated half, trailing comment, first line removed) carrying the !wireinject constraint (old and new syntax). Invariants on every transition: successful gen => output == Fresh(variant) from a pristine checkout, only that file changed, second gen changes nothing, diff right after exits 0; gen's and check's verdict equals the fresh-checkout verdict; failed gen, diff and check leave the tree untouched; diff exits 0/1/2 as specified.", names)
 	c.Samples = append(c.Samples, map[string]interface{}{"initial_state_files": variants[0].files, "fresh_output_A1": fresh["A1"], "example_history": "switch:A2 ; gen ; damage:noncompiling ; switch:R1 ; gen ; switch:A1 ; gen"})
 	c.Assumptions = append(c.Assumptions, "wire keeps no state outside the module tree (GOCACHE holds no wire data), so a tree is a complete state", "damaged output files all carry the generated build constraint, as the statement requires")
 	if ex.States < 30 && c.Only == "" {
